@@ -1,8 +1,8 @@
 (* C04 — property theorems.  The paths quantified over are those of
    gen/Paths_c04.v, regenerated from /repo's source by tools/genpaths on every
    run, so these theorems are re-checked against what the code says now. *)
-From Coq Require Import List String Bool Arith.
-From Verif Require Import c04.Events c04.Model c04.Spec c04.Proofs gen.Paths_c04.
+From Coq Require Import List String Bool Arith ZArith.
+From Verif Require Import c04.Events c04.Model c04.Close c04.Spec c04.Proofs c04.Proofs_Close gen.Paths_c04.
 Import ListNotations.
 
 (* Every control-flow path of every listed entry point — with the listed callees
@@ -40,7 +40,47 @@ Theorem c04_inline_sequential : forall p q s,
 Proof. intros p q s. exact (arun_app p q s). Qed.
 Print Assumptions c04_inline_sequential.
 
+(* "After a swarm has been closed ... all of its connections and streams are
+   gone", for EVERY interleaving of Swarm.close with in-flight addConn,
+   addStream, Conn.Close and stream closes (each critical section and each
+   release one step; Close.v): in any state in which the swarm's close has run
+   its critical section and nothing is in flight (no add between its call and
+   its end, every snapshot released), every connection and every stream ever
+   offered has been released. *)
+Theorem c04_close_all_gone : forall ops,
+  closed (conns (srun sw0 ops)) = true -> quiescent (srun sw0 ops) = true ->
+  all_gone (srun sw0 ops) = true.
+Proof. exact close_all_gone. Qed.
+Print Assumptions c04_close_all_gone.
+
+(* the invariant behind it holds in every reachable state: in a closed registry
+   an item is Registered only if the closer's snapshot still holds it, and a
+   stream registry that is still open belongs to a still registered connection *)
+Theorem c04_close_invariant : forall ops, sinv (srun sw0 ops).
+Proof. intros ops. exact (sinv_run ops sw0 sinv0). Qed.
+Print Assumptions c04_close_invariant.
+
 (* ---- non-vacuity ---------------------------------------------------------- *)
+(* a race: conn 0 registered with a stream, the swarm closes, conn 1's add and
+   a second stream on conn 0 arrive late; at quiescence everything is released *)
+Example close_race_example :
+  let s := srun sw0 [SOffer 0; SAddCS 0; TOffer 0 0; TAddCS 0 0; SOffer 1; TOffer 0 1;
+                     SCloseCS; SAddCS 1; SCloseRel 0; TAddCS 0 1; TCloseRel 0 0; SAddRel 1; TAddRel 0 1] in
+  closed (conns s) = true /\ quiescent s = true /\ all_gone s = true /\
+  get 1 (items (conns s)) = Some Released /\ get 1 (items (sget 0 (strs s))) = Some Released.
+Proof. vm_compute. repeat split; reflexivity. Qed.
+
+(* before the late add has released its item the state is not quiescent, so the
+   premise of the theorem is not trivially true *)
+Example close_race_not_yet :
+  let s := srun sw0 [SOffer 0; SCloseCS; SAddCS 0] in
+  quiescent s = false /\ all_gone s = false.
+Proof. vm_compute. split; reflexivity. Qed.
+
+Example close_monitor_rejects_open_conn :
+  monitor_case [5; 1; 1; 0; 0; 0; 0; 0]%Z <> [].
+Proof. vm_compute. discriminate. Qed.
+
 (* every entry has feasible paths, and the tables reject a leaking path: the
    ErrNilPeer return as it was before the repair (no Close before the return) *)
 Example entries_nonempty :
